@@ -19,7 +19,7 @@ ASSUMPTIONS = ["auto-generated send ids (random UUIDs) are projected away", "fra
 
 def budget(tier):
     if tier == "thorough":
-        return {"examples": 12000, "exh_states": 6, "min_nontrivial": 1000}
+        return {"examples": 2500, "exh_states": 6, "min_nontrivial": 1000}
     return {"examples": 350, "exh_states": 5, "min_nontrivial": 100}
 
 
